@@ -993,4 +993,80 @@ theorem C01.assign_then_lookup (f g : Nat) (op name : String) (e : Node) (st : S
 example : outcome (evalI 4 (.inf "ASSIGN" (.ident "x") (.int 5))) (initState {}) = .ok (.int 5) := rfl
 example : outcome (evalI 2 (.ident "x")) (stateAfter (evalI 4 (.inf "ASSIGN" (.ident "x") (.int 5))) (initState {})) = .ok (.int 5) := rfl
 
+/-! ## 9. `return`, the `Eval` wrapper, function application -/
+
+theorem C01.evalI_return_nil (f : Nat) : evalI (f + 1) (.ret .none) = C15.enter (pure (.ret .null "RETURN")) := by
+  evalI_step
+
+/-- `return e`: the value of `e` (evaluated by `evalInternal`, not unwrapped) wrapped as a RETURN value -/
+theorem C01.evalI_return (f : Nat) (e : Node) (he : e = .none → False) :
+    evalI (f + 1) (.ret e) = C15.enter (do pure (.ret (← evalI f e) "RETURN")) := by
+  cases e <;> first
+    | exact (he rfl).elim
+    | (rw [evalI] <;> first
+        | exact he
+        | (unfold C15.enter; congr 1; funext st; congr 1; funext _; cases st.cfg.deadlineAfter <;> rfl))
+
+/-- `break` / `continue` are control values with a nil payload -/
+theorem C01.evalI_ctl (f : Nat) (kind : String) : evalI (f + 1) (.ctl kind) = C15.enter (pure (.ret .null kind)) := by
+  evalI_step
+
+/-- `return e` stops the block it is in: the statements after it are NOT evaluated; the block's value is the
+RETURN value carrying the value of `e`, the state is the one `e` left -/
+theorem C01.return_stops_block (f : Nat) (e : Node) (rest : List Node) (res v : Obj) (st : St)
+    (hd : st.cfg.deadlineAfter = none) (hne : e = .none → False)
+    (he : outcome (evalI f e) (C15.bump st) = .ok v) :
+    outcome (evalStatements (f + 2) (.ret e :: rest) res) st = .ok (.ret v "RETURN")
+    ∧ stateAfter (evalStatements (f + 2) (.ret e :: rest) res) st = stateAfter (evalI f e) (C15.bump st) := by
+  have h1 : SameRun (evalI (f + 1) (.ret e)) st (pure (.ret v "RETURN")) (stateAfter (evalI f e) (C15.bump st)) := by
+    rw [C01.evalI_return f e hne]
+    refine (C01.sameRun_enter _ st hd).trans ((C01.sameRun_bind_ok _ _ _ _ he).trans ?_)
+    exact SameRun.refl _ _
+  have h2 := C01.stmts_cons_stops (f + 1) (.ret e) rest res (.ret v "RETURN") st (fun h => by cases h) h1.1 rfl
+  exact h2.trans h1
+
+/-- the state `Eval` hands to `evalInternal`: one level deeper -/
+def C01.deeper (st : St) : St := { st with depth := st.depth + 1 }
+/-- … and what it does on the way back -/
+def C01.shallower (st : St) : St := { st with depth := st.depth - 1 }
+
+/-- `(*State).Eval`, depth guard: beyond `MaxDepth` nothing is evaluated -/
+theorem C01.eval_depth_guard (f : Nat) (node : Node) (st : St) (h : st.depth > st.cfg.maxDepth) :
+    outcome (eval (f + 1) node) st = .error .depthGuard ∧ stateAfter (eval (f + 1) node) st = st := by
+  rw [outcome_eq_run, stateAfter_eq_run, eval]
+  simp only [run_bind, run_get, h]
+  exact ⟨rfl, rfl⟩
+
+/-- `(*State).Eval` below the depth limit: `evalInternal` one level deeper; then a RETURN value is unwrapped
+(this is where `return` ends at the function boundary), `break`/`continue` outside a loop are an error, and
+any other plain value is passed through -/
+theorem C01.eval_unwrap (f : Nat) (node : Node) (st : St) (r : Obj) (h : ¬ st.depth > st.cfg.maxDepth)
+    (hr : outcome (evalI f node) (C01.deeper st) = .ok r) :
+    (∀ v, r = .ret v "RETURN" → (∀ e n, v ≠ .ref e n) →
+        outcome (eval (f + 1) node) st = .ok v
+        ∧ stateAfter (eval (f + 1) node) st = C01.shallower (stateAfter (evalI f node) (C01.deeper st)))
+    ∧ (∀ v kind, r = .ret v kind → kind ≠ "RETURN" →
+        outcome (eval (f + 1) node) st = .ok (err "unexpected control type outside of for loops"))
+    ∧ ((∀ v kind, r ≠ .ret v kind) → (∀ e n, r ≠ .ref e n) →
+        outcome (eval (f + 1) node) st = .ok r
+        ∧ stateAfter (eval (f + 1) node) st = C01.shallower (stateAfter (evalI f node) (C01.deeper st))) := by
+  have hrun : run (evalI f node) { st with depth := st.depth + 1 } =
+      (.ok r, stateAfter (evalI f node) (C01.deeper st)) := Prod.ext hr rfl
+  refine ⟨fun v hv hp => ?_, fun v kind hv hk => ?_, fun h1 h2 => ?_⟩
+  · subst hv
+    rw [outcome_eq_run, stateAfter_eq_run, eval]
+    simp only [run_bind, run_get, h, if_false, run_set, hrun, run_modify]
+    cases v <;> first | exact absurd rfl (hp _ _) | exact ⟨rfl, rfl⟩
+  · subst hv
+    have hk' : (kind != "RETURN") = true := by simpa using hk
+    rw [outcome_eq_run, eval]
+    simp only [run_bind, run_get, h, if_false, run_set, hrun, run_modify, hk']
+    rfl
+  · rw [outcome_eq_run, stateAfter_eq_run, eval]
+    simp only [run_bind, run_get, h, if_false, run_set, hrun, run_modify]
+    cases r <;> first | exact absurd rfl (h1 _ _) | exact absurd rfl (h2 _ _) | exact ⟨rfl, rfl⟩
+
+example : outcome (evalStatements 4 [.ret (.int 1), .ident "nosuch"] .null) {} = .ok (.ret (.int 1) "RETURN") := rfl
+example : outcome (eval 5 (.stmts [.ret (.int 1), .ident "nosuch"])) {} = .ok (.int 1) := rfl
+
 end Grol.E
